@@ -281,6 +281,20 @@ func runPair(r *vh.Rng, directed int) *pairScen {
 		case "LDeferredC", "LDeferredS":
 			slow = true
 			time.Sleep(1250 * time.Millisecond)
+			// under load a 1 s goroutine may be late: a side resting in abort-done / remote-abort-done
+			// has its close pending, wait for it (generous cap)
+			for _, sd := range []*side{cl, sv} {
+				st := sd.conn.VerifSnapshot().State
+				for i := 0; i < 500 && (st == 15 || st == 16); i++ {
+					sd.mu.Lock()
+					c := sd.closed
+					sd.mu.Unlock()
+					if c {
+						break
+					}
+					time.Sleep(10 * time.Millisecond)
+				}
+			}
 		}
 		sc.labels = append(sc.labels, lb)
 		sc.sums = append(sc.sums, sum())
